@@ -160,7 +160,7 @@ def deductive(run: Run, sidecar: str, both: bool, enroll: bool) -> dict[str, Any
         run.crashes.append(f"vacuous path(s): contradictory precondition/invariant/axioms at {sess.covers()['vacuous'][:3]}")
     if sess.disagreements():
         run.crashes.append(f"solver disagreement on {sess.disagreements()[:3]}")
-    if obligations == 0 and enrolled:
+    if obligations == 0 and enrolled and not sess.undecided:
         run.crashes.append("zero obligations generated")
     res["_coherent_ok"] = {cid.split("/")[0].replace(".setter", ""): True for cid in enrolled
                            if cid in clauses and clauses[cid]["discharged"] and cid.endswith("/ensures.coherent")}
